@@ -50,3 +50,56 @@ Fixpoint prefix_sums (acc : N) (vs : list N) : list N :=
   | [] => []
   | v :: r => (acc + v) :: prefix_sums (acc + v) r
   end.
+
+(* ------------------------------------------------------------------------------------------------------------
+   The instrumentation class (prometheus_client/metrics.py, Histogram):
+
+       def _prepare_buckets(self, source_buckets):            # Sequence[Union[float, str]]
+           buckets = [float(b) for b in source_buckets]
+           if buckets != sorted(buckets): raise ValueError
+           if buckets and buckets[-1] != INF: buckets.append(INF)
+           if len(buckets) < 2: raise ValueError
+           self._upper_bounds = buckets
+       _metric_init:    one value per bound, keyed  labelvalues + (floatToGoString(b),)
+       _child_samples:  acc += bucket.get();  Sample('_bucket', {'le': floatToGoString(bound)}, acc)
+
+   A bound is GIVEN as anything float() takes (a float, an int, a bool, text in any spelling, a Decimal, a
+   Fraction, bytes ...): B is that type and to_float is CPython's float() followed by the classification of the
+   double - a platform function, outside the model like the double itself.  Everything after the first line
+   works on the doubles only.  The order test is on doubles and stays outside too (the bounds arrive ascending,
+   as in mp_le_samples); counts are the per-bucket (non-cumulative) values. *)
+Definition is_pinf (c : fclass) : bool := match c with FPosInf => true | _ => false end.
+
+Definition with_inf (bs : list fclass) : list fclass :=
+  match bs with
+  | [] => []
+  | _ => if is_pinf (last bs FNaN) then bs else bs ++ [FPosInf]
+  end.
+
+Section Hist.
+  Variable B : Type.
+  Variable to_float : B -> fclass.
+
+  Definition hist_bounds (src : list B) : res (list fclass) :=
+    let bs := with_inf (map to_float src) in
+    if (length bs <? 2)%nat then Err ValueError else Ok bs.
+
+  Definition hist_le_samples (src : list B) (counts : list N) : res (list (str * N)) :=
+    do bs <- hist_bounds src; Ok (le_cumulate 0 (combine bs counts)).
+End Hist.
+
+(* The design that renders the le labels once, in _prepare_buckets, and keeps a bound given as text verbatim
+   ("label text already").  Not the code; kept to be refuted (props/C13.v). *)
+Inductive given :=
+  | GText (text : str) (denotes : fclass)
+  | GNum (denotes : fclass).
+
+Definition given_float (g : given) : fclass := match g with GText _ c => c | GNum c => c end.
+Definition le_verbatim (g : given) : str := match g with GText t _ => t | GNum c => go_string c end.
+
+Definition hist_les_verbatim (src : list given) : list str :=
+  map le_verbatim src ++
+  match src with
+  | [] => []
+  | _ => if is_pinf (last (map given_float src) FNaN) then [] else [S_pinf]
+  end.
